@@ -1,5 +1,7 @@
 (* line protocol (same requests and answers as harness/llrp/c19_test.go, minus "tables"):
      dec <w> <len,..> <id,..>        per (len, id): "<hdr_decode>|<read_header or =>"
+     frg <w> <len,..> <id,..> <pats>  read_header_chunks under every cut pattern
+     rfg|pip <hex | -> <pats>        the same for an arbitrary stream (rfg adds @consumed)
      raw <hex | ->                   the same for an arbitrary buffer
      enc <ver> <typ> <len,..> <id,..> per (len, id): "<hdr_encode>|=|<write_header or =>"
    decoded headers print as ver.typ.len.id, rejection/refusal as E, bytes as hex *)
@@ -55,6 +57,47 @@ let () =
                  first := false;
                  let bytes = byte_n.(w lsr 8) :: byte_n.(w land 255) :: (lb @ b32 id) in
                  decode_both out bytes) ids) lens
+       | ["frg"; w; lens; ids; pats] ->
+         (* the header delivered in pieces: per (len, id) the read_header_chunks result for every
+            cut pattern ("3" = pieces [0,3) [3,10); "2+5" = [0,2) [2,5) [5,10)), printed once if all
+            patterns agree, else all of them joined by '/' *)
+         let w = int_of_string w in
+         let lens = csv lens and ids = csv ids in
+         let pats = List.map (fun p -> List.map int_of_string (String.split_on_char '+' p))
+             (String.split_on_char ',' pats) in
+         let rec cut l k = if k = 0 then ([], l) else
+             (match l with [] -> ([], []) | x :: r -> let (a, b) = cut r (k - 1) in (x :: a, b)) in
+         let rec pieces l pos = function
+           | [] -> [l]
+           | c :: cs -> let (a, b) = cut l (c - pos) in a :: pieces b c cs in
+         let first = ref true in
+         List.iter (fun l ->
+             let lb = b32 l in
+             List.iter (fun id ->
+                 if not !first then Buffer.add_char out ' ';
+                 first := false;
+                 let bytes = byte_n.(w lsr 8) :: byte_n.(w land 255) :: (lb @ b32 id) in
+                 let rs = List.map (fun p -> res_string (read_header_chunks (pieces bytes 0 p))) pats in
+                 (match rs with
+                  | r :: rest when List.for_all (fun x -> x = r) rest -> Buffer.add_string out r
+                  | _ -> Buffer.add_string out (String.concat "/" rs))) ids) lens
+       | [("rfg" | "pip") as k; h; pats] ->
+         let bytes = if h = "-" then [] else bytes_of_hex h in
+         let pats = List.map (fun p -> List.map int_of_string (String.split_on_char '+' p))
+             (String.split_on_char ',' pats) in
+         let rec cut l k = if k = 0 then ([], l) else
+             (match l with [] -> ([], []) | x :: r -> let (a, b) = cut r (k - 1) in (x :: a, b)) in
+         let rec pieces l pos = function
+           | [] -> [l]
+           | c :: cs -> let (a, b) = cut l (c - pos) in a :: pieces b c cs in
+         let ten = S (S (S (S (S (S (S (S (S (S O))))))))) in
+         let rs = List.map (fun p ->
+             let ch = pieces bytes 0 p in
+             let r = res_string (read_header_chunks ch) in
+             if k = "rfg" then r ^ "@" ^ string_of_int (List.length (read_full ten ch)) else r) pats in
+         (match rs with
+          | r :: rest when List.for_all (fun x -> x = r) rest -> Buffer.add_string out r
+          | _ -> Buffer.add_string out (String.concat "/" rs))
        | ["raw"; h] ->
          decode_both out (if h = "-" then [] else bytes_of_hex h)
        | ["enc"; ver; typ; lens; ids] ->
